@@ -536,7 +536,8 @@ func wsRun(rt *rapid.T, prop string) {
 			pushes++
 			viol = vs.Guard("C12", m.sig("panic_in_push"), func() { ws.Push(wr) })
 		case choice == 6: // push control
-			m.endWindow()
+			// (a control frame does not change which streams are sendable: the
+			// service window of the fairness oracle goes on)
 			m.nextTag++
 			f := &wsFrame{tag: m.nextTag}
 			if vs.Bool(c) {
@@ -576,10 +577,32 @@ func wsRun(rt *rapid.T, prop string) {
 			ev("maxframe %d", sc.maxFrameSize)
 		default: // pop burst
 			n := vs.Range(c, 1, 12)
+			// sometimes with one control frame (a WINDOW_UPDATE or PING ACK, say)
+			// queued before every Pop, so that control and stream frames alternate
+			alternate := vs.Pct(c, 25)
+			if alternate {
+				n = vs.Range(c, 4, 40)
+				vs.G.Inc("probe.control_stream_alternation")
+			}
 			for i := 0; i < n && viol == nil; i++ {
+				if alternate {
+					m.nextTag++
+					f := &wsFrame{tag: m.nextTag}
+					f.write = &vfFrame{tag: f.tag, kind: "CONTROL"}
+					m.control = append(m.control, f)
+					pushes++
+					ev("push CONTROL tag=%d (alternating)", f.tag)
+					if viol = vs.Guard("C12", m.sig("panic_in_push"), func() { ws.Push(FrameWriteRequest{write: f.write}) }); viol != nil {
+						break
+					}
+				}
 				viol = m.pop()
 				pops++
 				m.popWindow = true
+				if alternate && viol == nil {
+					viol = m.pop() // the control frame went first; this one serves a stream
+					pops++
+				}
 			}
 		}
 	}
